@@ -33,9 +33,14 @@ def run(spec):
     audit = {'obligations': 0, 'discharged': 0, 'problems': ['lake build failed'], 'theorems': [],
              'checker_cmd': f'cd {LEAN} && lake build'}
     if ok_build:
-        audit = lean_audit(prop, [])
+        pfs = spec.get('props', prop)
+        pfs = [pfs] if isinstance(pfs, str) else list(pfs)
+        audits = [lean_audit(pf, []) for pf in pfs]
+        audit = {'obligations': sum(a['obligations'] for a in audits), 'discharged': sum(a['discharged'] for a in audits),
+                 'problems': [x for a in audits for x in a['problems']], 'theorems': [t for a in audits for t in a['theorems']],
+                 'checker_cmd': '; '.join(a['checker_cmd'] for a in audits)}
         if tr == 'thorough':
-            for m, okc, out in leanchecker([f'PikaVerif.Props.{prop}']):
+            for m, okc, out in leanchecker([f'PikaVerif.Props.{pf}' for pf in pfs]):
                 if not okc:
                     audit['problems'].append(f'leanchecker {m}: {out}')
     proof_ok = ok_build and not audit['problems'] and audit['obligations'] == audit['discharged'] and audit['obligations'] > 0
